@@ -582,6 +582,7 @@ def _check_walk_paths(ctx, tag, model, n, mem, pss, kinds, assume):
     fn = mem.node
     sig = signature(fn)
     continuing = 0
+    n_stopped = 0
     for i, ps in enumerate(pss):
         evs = [e for e in ps.events if e.kind in ("rec", "visit", "post_visit")]
         loc = where(mem)
@@ -605,6 +606,7 @@ def _check_walk_paths(ctx, tag, model, n, mem, pss, kinds, assume):
         recs = [e for e in evs if e.kind == "rec"]
         posts = [e for e in evs if e.kind == "post_visit"]
         if stopped:
+            n_stopped += 1
             ok = not recs and not posts and ps.term in ("return", "end")
             ctx.ob(f"{tag}/skip-on-false", ok, loc,
                    "visit false: returns without touching children" if ok else
@@ -654,6 +656,10 @@ def _check_walk_paths(ctx, tag, model, n, mem, pss, kinds, assume):
                (f"{hname(mem)} on {n.name}: " + "; ".join(problems)) if problems
                else "visit, each child once, post_visit",
                {"recursion_args": [_short(e.arg) for e in recs]})
+    if kinds and continuing and not n_stopped:
+        ctx.ob(f"{tag}/skip-on-false", False, where(mem),
+               f"{hname(mem)} on {n.name}: the result of visit() is ignored -- "
+               "children are walked even when visit returns false", {})
     if not continuing and not any(ps.term == "raise" for ps in pss):
         ctx.ob(f"{tag}/no-continuing-path", False, where(mem),
                f"{hname(mem)} has no path that visits the children", {})
